@@ -48,9 +48,15 @@ func runRace(c Case) (*core.Violation, int) {
 	varsInst := map[int]map[string]string{}
 	flagsInst := map[int]map[string]struct{}{}
 	snap := map[int]string{}
+	for i := range c.Tasks {
+		if c.Tasks[i].Ledger != nil {
+			c.Tasks[i].StoreGroup = 1000 + i // own content: own store
+		}
+	}
 	for _, t := range c.Tasks {
 		if _, ok := stores[t.StoreGroup]; !ok {
 			stores[t.StoreGroup] = store.NewFrozen(c.inputsFor(t), mode, c.Shared)
+			stores[t.StoreGroup].Pause = true
 			snap[t.StoreGroup] = stores[t.StoreGroup].Snapshot()
 		}
 		if _, ok := varsInst[t.VarsGroup]; !ok {
